@@ -5,4 +5,4 @@ CONSTANTS
   Genesis = {"g1", "g2"}
   RingCap = 3
   MaxConns = 4
-INVARIANTS TypeOK Negotiated GenesisRefused SelfRefused NoFalseRefusal
+INVARIANTS TypeOK Negotiated GenesisRefused SelfRefused NoFalseRefusal InFlightRemembered
